@@ -103,6 +103,7 @@ def names_same(ctx, a, b):
 
 def run_case(case, ctx):
     from smartquery.exceptions import ParserError, OpsExecutionLimitExceededError
+    body = None
     if case[0] == 'src':
         src, budget_mode, r = case[1], 'ample', random.Random(1)
         fault = None
@@ -113,6 +114,13 @@ def run_case(case, ctx):
         src = sep.join(l.replace('\n', sep) if sep != ';' else l.replace('\n', ';') for l in lines)
         budget_mode = r.choice(['ample', 'ample', 'ample', 'T', 'T+1', 'T-1', 'default'])
         fault = env.fault
+        if sep in ('\n', '\r\n') and r.random() < 0.3:
+            # end-of-line comments are layout; they must not change anything
+            src = sep.join(l + r.choice(['', '  # note', ' # ) ] "', '#x']) for l in src.split(sep))
+        if r.random() < 0.2:
+            body = gen2.gen_ast_body(r)
+            src = src + sep + r.choice(['af(%s, %s)', 'r_af = af(%s, %s)', '[af(%s, %s), h_num]', 'map([1, 2], v => af(v, %s)) if %s else 0', 'try_(af, %s, %s)']) % (
+                r.choice(['1', 'h_num', '2.5']), r.choice(['2', 'h_int', '0']))
     try:
         tree = refparser.ref_parse([(t[0], t[1]) for t in reflex.tokens(src)])
     except (refparser.Reject, reflex.LexError) as e:
@@ -120,8 +128,23 @@ def run_case(case, ctx):
         ctx.notes.append('unparsable: %s' % src[:200]) if len(ctx.notes) < 5 else None
         return
     names0 = gen2.host_names(r)
+    ref_ast = impl_ast = None
+    if body is not None:
+        try:
+            body_tree = refparser.ref_parse([(t[0], t[1]) for t in reflex.tokens(body)])
+        except (refparser.Reject, reflex.LexError):
+            ctx.count('generator_produced_unparsable_text(dropped)')
+            return
+        from smartquery.ast_ops import LambdaOp, NameOp
+        ref_ast = {'af': ('Lambda', (('Name', 'p0'), ('Name', 'p1')), body_tree)}
+        try:
+            impl_ast = {'af': LambdaOp(args=[NameOp('p0'), NameOp('p1')], expr=ctx.P.parse(body))}
+        except Exception:
+            ctx.count('ast_body_rejected_by_implementation(dropped)')
+            return
+        ctx.count('programs_with_ast_names')
     # reference, unbounded first (to learn T)
-    ref_unb, m_unb = refeval.run(tree, copy.deepcopy(names0), 10 ** 9)
+    ref_unb, m_unb = refeval.run(tree, copy.deepcopy(names0), 10 ** 9, ref_ast)
     if ref_unb[0] == 'recursion':
         ctx.count('reference_recursion(dropped)')
         return
@@ -130,7 +153,7 @@ def run_case(case, ctx):
     if case[0] == 'src':
         budget = case[2]
     rn = copy.deepcopy(names0)
-    ref, m = refeval.run(tree, rn, budget if budget is not None else 100)
+    ref, m = refeval.run(tree, rn, budget if budget is not None else 100, ref_ast)
     # implementation
     inn = copy.deepcopy(names0)
     M1 = ctx.M1
@@ -138,7 +161,7 @@ def run_case(case, ctx):
     M1.lambdas.clear()
     ctx.state[0] = None
     try:
-        v = ctx.P.eval(src, inn, None, budget) if budget is not None else ctx.P.eval(src, inn)
+        v = ctx.P.eval(src, inn, impl_ast, budget) if budget is not None else ctx.P.eval(src, inn, impl_ast)
         got = ('value', v)
     except OpsExecutionLimitExceededError as e:
         got = ('ops', str(e))
@@ -157,7 +180,7 @@ def run_case(case, ctx):
     for k, n in M1.by_kind.items():
         ctx.cov('node_kinds', k)
     ctx.nontriv('%s|%s' % (src, budget))
-    detail = {'src': src, 'budget': budget, 'expected': (ref[0], repr(ref[1])[:200]), 'got': (got[0], repr(got[1])[:200])}
+    detail = {'src': src, 'ast_names_body': body, 'budget': budget, 'expected': (ref[0], repr(ref[1])[:200]), 'got': (got[0], repr(got[1])[:200])}
     what, finding = None, None
     if got[0] != ref[0]:
         what = 'outcome class differs: implementation %s, reference %s' % (got[0], ref[0])
